@@ -7,6 +7,7 @@ import (
 
 	plugin "github.com/gogo/protobuf/protoc-gen-gogo/plugin"
 	"verifharness/extract"
+	"verifharness/run"
 
 	"verifharness/desc"
 	"verifharness/pipe"
@@ -14,6 +15,18 @@ import (
 
 func dispatch(cmd string, args []string) bool {
 	switch cmd {
+	case "batch":
+		batchCmd(args)
+		return true
+	case "plugin-only":
+		pluginOnlyCmd(args)
+		return true
+	case "build-plugin":
+		if err := run.BuildPlugin(args[0], args[1]); err != nil {
+			fmt.Println(err)
+			os.Exit(1)
+		}
+		return true
 	case "extract":
 		repo, out := "/repo", "/verif/lean/PGT/Generated"
 		if len(args) > 0 {
